@@ -278,6 +278,13 @@ func (g *cronGen) entLine(name string, dupOf int) string {
 		}
 	}
 	start := T0.Add(time.Duration(r.Intn(3)) * time.Minute)
+	// an Entry's start time may carry any location: expressions without TZ= are read in that location
+	switch r.Intn(4) {
+	case 0:
+		start = start.In(time.FixedZone("jst", 9*3600))
+	case 1:
+		start = start.In(time.FixedZone("w", -5*3600-1800))
+	}
 	return fmt.Sprintf("ent %s %s %s %s", proto.Str(name), proto.Time(start), proto.Str(rng.Pick(r, cronExprs)), proto.Param(p))
 }
 
